@@ -26,6 +26,10 @@ fn pair_case(a: &str, b: &str) -> Value {
 }
 
 pub fn check_pair(a: &Locale, b: &Locale, st: &mut Stats, mode: Count) {
+    netted(st, || pair_case(&guard(|| a.to_string()).unwrap_or_default(), &guard(|| b.to_string()).unwrap_or_default()), 10, |st| check_pair_inner(a, b, st, mode));
+}
+
+fn check_pair_inner(a: &Locale, b: &Locale, st: &mut Stats, mode: Count) {
     st.eval();
     let (sa, sb) = (a.to_string(), b.to_string());
     let case = || pair_case(&sa, &sb);
